@@ -45,6 +45,7 @@ const (
 	PStopAtStatement
 	PTwinIDs
 	PChurnNoise
+	PCtxDeadline
 )
 
 var ProbeNames = map[int]string{
@@ -75,6 +76,7 @@ var ProbeNames = map[int]string{
 	PStopAtStatement:       "stop_placed_at_an_exact_sut_statement_boundary",
 	PTwinIDs:               "two_clients_on_one_host_using_the_same_transaction_ids",
 	PChurnNoise:            "refused_two_record_registrations_between_churn_steps",
+	PCtxDeadline:           "query_context_with_its_own_deadline",
 }
 
 var scenarioNames = [...]string{"nbns-server", "nbns-udp+tcp", "llmnr-server", "llmnr-client", "llmnr-client+server", "nbns-challenger", "nbns-lifecycle"}
